@@ -21,7 +21,11 @@ def impl_ravel(inp):
     from abmarl.sim.wrappers.ravel_discrete_wrapper import ravel, unravel, ravel_space, check_space
     spec, shapes, xp, k = inp
     shapes = {tuple(p): tuple(sh) for p, sh in shapes}
-    space = S.build_space(spec, shapes)
+    S.NARROW_MD = True
+    try:
+        space = S.build_space(spec, shapes)
+    finally:
+        S.NARROW_MD = False
     if not check_space(space):
         return [0]
     rng = random.Random(k)
@@ -50,7 +54,8 @@ def gen(tier, rng):
              [5, [0, 3]], [6, [0, 2], [0, 3]], [6, [0, 3], [5, [2, 2, 2], [3, [-1, 1], [0, 1]]]],
              [5, [6, [1, 2], [0, 3]], [6, [5, [0, 2]], [3, [5, 7]]]],
              [4, [0, 1024]], [6, [0, 2], [4, [-512, 512]]], [7, 0, [0, 3], [0, 3]], [7, 2, [0, 3]],
-             [6, [0, 2], [7, 1, [-2, 2]]], [6, [0, 3], [0, 2]], [6, [1, 1], [0, 3], [2, 2, 3]]]
+             [6, [0, 2], [7, 1, [-2, 2]]], [6, [0, 3], [0, 2]], [6, [1, 1], [0, 3], [2, 2, 3]],
+             [2, 20, 13], [6, [2, 20, 13], [0, 3]], [5, [0, 2], [2, 20, 14]], [2, 16, 16, 2]]
     specs = list(fixed)
     while len(specs) < n_spaces:
         specs.append(S.random_spec(rng, rng.choice([0, 1, 2, 2, 3]), allow_float=(rng.random() < 0.05),
